@@ -87,6 +87,7 @@ def parse_micheline_prim(prim_expr) -> Tuple[str, list, list]:
 def parse_micheline_value(val_expr, handlers: Dict[Tuple[str, int], Callable]):
     assert isinstance(val_expr, dict), f'expected dict, got {pformat(val_expr)} (val_expr)'
     prim, args = val_expr.get('prim'), val_expr.get('args', [])
+    assert not val_expr.get('annots'), f'unexpected annotation {val_expr.get("annots")} on {prim}'
     expected = ' or '.join(map(lambda x: f'{x[0]} ({x[1]} args)', handlers))
     assert (prim, len(args)) in handlers, f'expected {expected}, got {prim} ({len(args)} args)'
     handler = handlers[(prim, len(args))]  # type: ignore
